@@ -612,8 +612,13 @@ func Explore(prog *ssa.Program, fn *ssa.Function, opts ExploreOpts) (*Stats, err
 				if res.Nontrivial {
 					st.Nontrivial++
 				}
-				if len(res.Sample) > 0 && len(st.Samples) < 3 {
-					st.Samples = append(st.Samples, res.Sample)
+				if len(res.Sample) > 0 {
+					// keep the first three and the latest three sampled paths
+					if len(st.Samples) < 6 {
+						st.Samples = append(st.Samples, res.Sample)
+					} else {
+						st.Samples[3+st.Paths%3] = res.Sample
+					}
 				}
 				switch res.Status {
 				case "unsupported", "budget", "error", "unknown", "deadlock":
